@@ -647,6 +647,92 @@ func checkObs(c obsCase) string {
 	return ""
 }
 
+// litUnary: sign-level operations on a number literal (abs, length, negation
+// and their compositions) denote |x| or +-x exactly; where gojq keeps the
+// literal (json.Number) the text must denote exactly that value, where it
+// converts to float64 the nearest double (saturating) is expected.
+type litUnaryCase struct {
+	Lit   string `json:"lit"`
+	Query string `json:"query"`
+}
+
+// litUnaryQueries: query -> sign transformation (+1: |x|, -1: -|x|, 2: x, -2: -x)
+var litUnaryQueries = map[string]int{
+	"abs": 1, "length": 1, "-.": -2, "-(-.)": 2, "[.] | map(abs) | .[0]": 1, "abs | abs": 1, "-. | abs": 1, "abs | -.": -1, "-(-.) | abs": 1, "length | -.": -1, "{a: .} | .a | abs": 1,
+	". as $x | $x | abs": 1, "[., .] | map(length) | .[1]": 1, "- abs": -1, "-. | -.": 2, "abs | length": 1, "-. | length": 1, "first(abs, .)": 1, "[abs] | add": 1, "abs | tojson | fromjson": 1,
+}
+var litUnaryCodes = map[string]*gojq.Code{}
+
+func init() {
+	for q := range litUnaryQueries {
+		litUnaryCodes[q] = run.MustCompile(q)
+	}
+}
+
+func ratOfText(s string) (*big.Rat, bool) {
+	// bound the exponent: big.Rat materialises 10^e
+	if i := strings.IndexAny(s, "eE"); i >= 0 {
+		if e, err := strconv.Atoi(s[i+1:]); err != nil || e > 2000 || e < -2000 {
+			return nil, false
+		}
+	}
+	return new(big.Rat).SetString(s)
+}
+
+func checkLitUnary(c litUnaryCase) string {
+	code, kind := litUnaryCodes[c.Query], litUnaryQueries[c.Query]
+	if code == nil || !json.Valid([]byte(c.Lit)) {
+		return "bad case"
+	}
+	x, ok := ratOfText(c.Lit)
+	if !ok {
+		return ""
+	}
+	want := new(big.Rat).Set(x)
+	switch kind {
+	case 1:
+		want.Abs(want)
+	case -1:
+		want.Abs(want).Neg(want)
+	case -2:
+		want.Neg(want)
+	}
+	res := run.Exec(code, json.Number(c.Lit), 0, 10)
+	if res.Err != nil || len(res.Vals) != 1 {
+		return fmt.Sprintf("%s on %s: err=%v outputs=%s", c.Query, c.Lit, res.Err, univ.ShowAll(res.Vals))
+	}
+	wf, _ := want.Float64() // nearest double; +-Inf beyond the range
+	beyond := math.IsInf(wf, 0)
+	switch v := res.Vals[0].(type) {
+	case json.Number:
+		got, ok := ratOfText(string(v))
+		if !ok {
+			return fmt.Sprintf("%s on %s gives the unreadable number %s", c.Query, c.Lit, v)
+		}
+		if got.Cmp(want) != 0 {
+			return fmt.Sprintf("%s on %s gives %s, which does not denote %s", c.Query, c.Lit, v, want.RatString())
+		}
+	case int:
+		if !want.IsInt() || want.Num().Cmp(big.NewInt(int64(v))) != 0 {
+			return fmt.Sprintf("%s on %s gives the int %d, want %s", c.Query, c.Lit, v, want.RatString())
+		}
+	case *big.Int:
+		if !want.IsInt() || want.Num().Cmp(v) != 0 {
+			return fmt.Sprintf("%s on %s gives the integer %s, want %s", c.Query, c.Lit, v, want.RatString())
+		}
+	case float64:
+		if beyond && (v == wf || v == math.Copysign(math.MaxFloat64, wf)) {
+			break // beyond the double range: the infinity inside, printed as the largest double
+		}
+		if v != wf && !(v == 0 && wf == 0) {
+			return fmt.Sprintf("%s on %s gives the double %v, the nearest double of %s is %v", c.Query, c.Lit, v, want.FloatString(30), wf)
+		}
+	default:
+		return fmt.Sprintf("%s on %s gives %s", c.Query, c.Lit, univ.Show(v))
+	}
+	return ""
+}
+
 func genLit() *rapid.Generator[string] {
 	digits := func(t *rapid.T, label string, min, max int) string {
 		n := rapid.IntRange(min, max).Draw(t, label+"n")
@@ -908,6 +994,12 @@ func replayCase(sub string, raw json.RawMessage) string {
 			return "bad replay: " + err.Error()
 		}
 		return checkLit(c)
+	case "lit-unary":
+		var c litUnaryCase
+		if err := json.Unmarshal(raw, &c); err != nil {
+			return "bad replay: " + err.Error()
+		}
+		return checkLitUnary(c)
 	case "observed":
 		var c obsCase
 		if err := json.Unmarshal(raw, &c); err != nil {
@@ -1080,6 +1172,39 @@ func TestC10(t *testing.T) {
 			t.Fatalf("%s", rec.Fail("literal", c, "%s", msg))
 		}
 	})
+	// sign-level operations on literals: every query on the fixed literals, then random
+	luq := make([]string, 0, len(litUnaryQueries))
+	for q := range litUnaryQueries {
+		luq = append(luq, q)
+	}
+	sort.Strings(luq)
+	for li, l := range fixedLits {
+		for qi, q := range luq {
+			if !rec.Mine(li*len(luq) + qi) {
+				continue
+			}
+			for _, lit := range []string{l, "-" + strings.TrimPrefix(l, "-")} {
+				c := litUnaryCase{Lit: lit, Query: q}
+				rec.Eval()
+				rec.NT("lit-unary/" + lit + "/" + q)
+				rec.Class("lit-unary/fixed")
+				if msg := checkLitUnary(c); msg != "" {
+					rec.Direct("lit-unary", c, "%s", msg)
+				}
+			}
+		}
+	}
+	rec.Rapid(t, "lit-unary", rec.Scale(20000, 600000), func(t *rapid.T) {
+		c := litUnaryCase{Lit: genLit().Draw(t, "lit"), Query: rapid.SampledFrom(luq).Draw(t, "query")}
+		rec.Eval()
+		rec.NT("lit-unary/" + c.Lit + "/" + c.Query)
+		rec.Class("lit-unary")
+		rec.Sample(c)
+		if msg := checkLitUnary(c); msg != "" {
+			t.Fatalf("%s", rec.Fail("lit-unary", c, "%s", msg))
+		}
+	})
+
 	// literals observed by another filter before they are emitted: every
 	// observer x form on a fixed batch, then random batches
 	for oi, o := range observers {
